@@ -347,6 +347,23 @@ func (fr *Frame) doSend(x *ssa.Send, st *State) *State {
 	if ex.P.sendHook != nil {
 		ex.P.sendHook(fr, st, x, v)
 	}
+	if c := ex.P.contractFor(fr.fn); c != nil && len(c.OnSend) > 0 && !fr.inline {
+		env := ex.newEnv(st, fr.entry, fr)
+		env.pkg = contractPkg(c.Func)
+		fr.bindTopVars(env)
+		if c.ThisAlias && len(fr.fn.Params) > 0 {
+			env.vars["this"] = fr.vals[fr.fn.Params[0]]
+		}
+		env.vars["sent"] = v
+		env.vars["sentch"] = ex.val(fr, x.Chan, st)
+		for i, cl := range c.OnSend {
+			lbl := cl.Label
+			if lbl == "" {
+				lbl = fmt.Sprintf("%d", i)
+			}
+			fr.obligeClause(st, "onsend", lbl, env, cl, nil)
+		}
+	}
 	if ex.P.blockHook != nil {
 		ex.P.blockHook(fr, st, "send "+exprLabel(fr, x.Chan), x)
 	}
